@@ -195,6 +195,12 @@ class Worker:
         addition/enqueueing. This is necessary to ensure that the idle status is
         always correct.
         """
+        self._mailbox_mutex = Lock()
+        """
+        Serializes registering an await (main thread) with depositing a result
+        (incoming thread), so that a waiting task is woken exactly once.
+        """
+
         # Send out every client emitted log message upstream
         old_factory = logging.getLogRecordFactory()
 
@@ -317,6 +323,11 @@ class Worker:
 
     def _handle_result(self, result: RuntimeResult) -> None:
         """Insert result into appropriate mailbox and wake waiting task."""
+        with self._mailbox_mutex:
+            self._deposit_result_and_wake(result)
+
+    def _deposit_result_and_wake(self, result: RuntimeResult) -> None:
+        """Deposit `result` and wake its waiting task; holds the mutex."""
         assert result.return_address.worker_id == self._id
 
         mailbox_id = result.return_address.mailbox_index
@@ -476,6 +487,14 @@ class Worker:
         if future.mailbox_id not in self._mailboxes:
             raise RuntimeError('Cannot await on a canceled task.')
 
+        # The incoming thread may deposit the result at any moment.
+        # Registering the waiting task and testing for readiness must be one
+        # step with respect to that, otherwise the task is woken twice.
+        with self._mailbox_mutex:
+            self._register_await(task, future)
+
+    def _register_await(self, task: RuntimeTask, future: RuntimeFuture) -> None:
+        """Mark `task` as waiting on `future`; wake it if already ready."""
         box = self._mailboxes[future.mailbox_id]
 
         # Let the mailbox know this task is waiting
@@ -494,6 +513,7 @@ class Worker:
 
         if box.ready:
             self._ready_task_ids.put(task.return_address)
+            box.dest_addr = None  # Prevent double wake
 
     def _process_task_completion(self, task: RuntimeTask, result: Any) -> None:
         """Package and send out task result."""
